@@ -6,7 +6,8 @@ from .base import Check
 
 
 # JSON theorems (IcingaProofs/C20/JsonLemmas.lean re-exported in IcingaProofs/C20.lean)
-JSON_THEOREMS = ["json_string_roundtrip", "surrogate_roundtrip", "json_roundtrip", "int_codec_lawful", "json_roundtrip_int"]
+JSON_THEOREMS = ["json_string_roundtrip", "surrogate_roundtrip", "json_roundtrip", "int_codec_lawful", "json_roundtrip_int",
+                 "decode_message_only_objects", "decode_message_roundtrip", "message_model_meets_spec", "recv_message_only_objects"]
 
 
 class C20(Check):
@@ -24,7 +25,8 @@ class C20(Check):
                   "over-limit header is rejected with every byte after ':' unread and nothing allocated, and the allocation never exceeds the limit on any input; "
                   "for every payload list and EVERY chunking (also of every prefix of the stream) the buffered read loop yields exactly the complete frames and "
                   "then EOF; on every byte stream the loop ends within a stated number of calls and items lie inside the buffer; JSON: decode(encode v) = v for "
-                  "every tree (all of Unicode, escapes, surrogate pairs, any nesting) over an abstract lawful number codec, instance integers proved. The models "
+                  "every tree (all of Unicode, escapes, surrogate pairs, any nesting) over an abstract lawful number codec, instance integers proved; "
+                  "JsonRpc::DecodeMessage hands the caller a dictionary exactly for JSON objects and rejects everything else with an error. The models "
                   "are tied to the code by running the real functions on the same inputs and diffing every observation; the specification predicates are "
                   "evaluated on the implementation's own observations")
     level_note = ("Trusted: Lean kernel (+ propext, Classical.choice, Quot.sound), sampled correspondence (exhaustive chunkings of short streams, random otherwise), "
@@ -33,7 +35,8 @@ class C20(Check):
                   "memory safety of the C++ (exercised only).")
     trusted_base = [
         "modelled, not verified: NetString::WriteStringToStream, both TLS ReadStringFromStream variants (one model: the statements are identical), the buffered "
-        "ReadStringFromStream with StreamReadContext::FillFromStream/DropData (a fill = one chunk appended or EOF), JsonEncode (compact) with nlohmann dump_escaped "
+        "ReadStringFromStream with StreamReadContext::FillFromStream/DropData (a fill = one chunk appended or EOF), JsonRpc::DecodeMessage and one iteration of "
+        "JsonRpcConnection::HandleIncomingMessages (ReadMessage, DecodeMessage, message->Get), JsonEncode (compact) with nlohmann dump_escaped "
         "(ensure_ascii), JsonDecode restricted to whitespace-free text",
         "number formatting/lexing (nlohmann dump of integers/doubles, strtod) is a codec parameter with the law parse(fmt x) = x: proved for the integer instance, "
         "assumed for binary64 and checked bit-exactly on every generated number (the sign of zero is not part of the value: -0.0 prints as 0)",
@@ -49,7 +52,7 @@ class C20(Check):
     def _run(self, harness_cmd, driver, save):
         hrc, herr, drc, lines = runner.pipeline(harness_cmd, [driver], save)
         if hrc != 0:
-            raise core.TieBroken("harness:c20:run", f"rc={hrc} (crash/abort of the real code or harness failure)\n{herr}")
+            raise core.TieBroken("harness:c20:run", f"rc={hrc} (harness failure; crashes of the real code are reported per operation as X lines)\n{herr}")
         if drc != 0:
             raise core.TieBroken("driver:c20:run", "\n".join(lines[-20:]))
         return lines
@@ -72,28 +75,48 @@ class C20(Check):
                     return line.rstrip("\n")
         return ""
 
-    def _shrink(self, harness, driver, line, want):
-        """Delta debugging over the bytes of the stream of a T/B/K line (cuts dropped); other lines are kept."""
-        w = runner.strip_obs(line).split()
-        if not w or w[0] not in ("T", "B", "K"):
-            return line
-        idx = 1 if w[0] == "K" else 3
+    def _shrink(self, harness, driver, line, want, save=None, lineno=None):
+        """Delta debugging over the bytes of the stream/payload of a T/B/M/K/D line (cuts dropped); F/J lines are
+        kept.  An `X <sig> <op>` line (crash) is shrunk as its operation; if the operation alone does not
+        reproduce the crash (heap corruption that surfaces later), the preceding operations are added and the
+        sequence of lines is minimised instead.  Returns a list of operation lines."""
+        op = runner.strip_obs(line)
+        if op.startswith("X "):
+            op = op.split(" ", 2)[2] if len(op.split(" ", 2)) == 3 else op
+        w = op.split()
+        if not w:
+            return [line]
+        if not self._fails(harness, driver, [op], want):
+            if save and lineno:
+                ctx = []
+                with open(save) as f:
+                    for i, l in enumerate(f, 1):
+                        if i >= lineno:
+                            break
+                        if i >= lineno - 400 and l.strip() and not l.startswith("X "):
+                            ctx.append(runner.strip_obs(l.rstrip("\n")))
+                if self._fails(harness, driver, ctx + [op], want):
+                    return runner.ddmin([], ctx + [op], lambda ls: self._fails(harness, driver, ls, want))
+            return [op]
+        if w[0] not in ("T", "B", "M", "K", "D"):
+            return [op]
+        idx = 1 if w[0] in ("K", "D") else 3
         hx = "" if w[idx] == "-" else w[idx]
         if len(hx) > 4000:
-            return line
+            return [op]
         by = [hx[i:i + 2] for i in range(0, len(hx), 2)]
 
         def mk(bs):
             v = list(w)
             v[idx] = "".join(bs) or "-"
-            if w[0] != "K":
+            if w[0] in ("T", "B", "M"):
                 v[4] = "-"
             return " ".join(v)
 
         if not self._fails(harness, driver, [mk(by)], want):
-            return line
+            return [op]
         by = runner.ddmin([], by, lambda bs: self._fails(harness, driver, [mk(bs)], want))
-        return mk(by)
+        return [mk(by)]
 
     def correspondence(self, tier, seed, harness, driver):
         res = runner.Result()
@@ -128,10 +151,12 @@ class C20(Check):
                     "chunk-delivering Stream and the real FIFO; seeded random: JSON trees (all Unicode planes, escapes, nesting to 64, numbers incl. 2^53, -0, "
                     "subnormals, 1e300), numbers and strings alone, hostile JSON text (mutations, invalid UTF-8, nesting to 10000), framed streams with random "
                     "chunkings (payloads to 60 KB, limits), hostile netstring streams (bad length fields, truncation, mutation), TLS reads (sync + coroutine) of valid, "
-                    "over-limit and hostile streams with random write sizes over a real TLS connection. evaluations = reader calls + codec round trips; a case "
+                    "over-limit and hostile streams with random write sizes over a real TLS connection; JsonRpc::DecodeMessage on null/scalars/arrays/objects/malformed "
+                    "payloads, directly and through ReadMessage+DecodeMessage+use of the result over TLS as the receive loop does. Every operation runs in a forked "
+                    "child: a crash/abort/hang of the real code becomes `X <signal> <operation>` = clause no_crash, shrunk and replayable. evaluations = reader calls + codec round trips; a case "
                     "counts as non-trivial (distinct by hash of its operation line, counted by the Lean driver) when it produced an item/error/non-EOF outcome, "
                     "an escape, a container or a fraction")
-        res.samples = [self._line(save, k) [:300] for k in (1, 2, 110100, 170100, 175000, 178500, 200000, 221000) if self._line(save, k)]
+        res.samples = [self._line(save, k)[:300] for k in (1, 2, 110100, 170100, 185000, 260000, 264000, 270000, 299000) if self._line(save, k)]
         bad = [l for l in lines if l.startswith("BADLINE")]
         if bad:
             res.corr_failures.append(runner.Finding("corr", "protocol", bad[:5]))
@@ -143,8 +168,8 @@ class C20(Check):
                     continue
                 seen.add(kv["clause"])
                 case = self._line(save, int(kv["line"]))
-                small = self._shrink(harness, driver, case, "SPECFAIL")
-                self._fails(harness, driver, [small], "SPECFAIL")
+                small = self._shrink(harness, driver, case, "SPECFAIL", save, int(kv["line"]))
+                self._fails(harness, driver, small, "SPECFAIL")
                 shown = open(self.work("shrink.out")).read().splitlines()
                 res.spec_failures.append(runner.Finding("spec", "spec:C20:" + kv["clause"], shown, {"driver": l}))
         seen = set()
@@ -156,14 +181,14 @@ class C20(Check):
                 seen.add(kv.get("kind"))
                 case = self._line(save, int(kv["line"]))
                 small = self._shrink(harness, driver, case, "MISMATCH")
-                self._fails(harness, driver, [small], "MISMATCH")
+                self._fails(harness, driver, small, "MISMATCH")
                 shown = open(self.work("shrink.out")).read().splitlines()
                 res.corr_failures.append(runner.Finding("corr", "observation:" + kv.get("kind", "?"), shown, {"driver": l}))
         return res
 
     def replay(self, path, harness, driver):
         data = json.load(open(path))
-        lines = [l for l in data.get("case", []) if l[:2] in ("T ", "F ", "B ", "J ", "K ")]
+        lines = [l for l in data.get("case", []) if l[:2] in ("T ", "F ", "B ", "J ", "K ", "D ", "M ", "X ")]
         f = self.work("replay.ops")
         with open(f, "w") as fh:
             fh.write("\n".join(runner.strip_obs(l) for l in lines) + "\n")
